@@ -266,9 +266,14 @@ class Setup:
                     par = world.chain.blocks[head_id]
                     ts = max(par.ts + 1, self.net.clock.t + self.rng.choice([0, 1, 10, 29]))
                     rbB, realB = world.assemble(head_id, [], ts, world.keys[0][1], route="ref")
-                    self.rng.choice(self.peers).push(self.wire.block(realB))
+                    # (relayed by the peer, or -- in a third of the cases -- an answer to a request of the node: such a block is
+                    # taken without in-state validation and is, for the time being, only buffered for the store)
+                    as_answer = self.rng.random() < 0.35
+                    self.rng.choice(self.peers).push(self.wire.block(realB, in_response_to=7 if as_answer else 0))
                     self.net.settle(node)
                     moved = cm.coinstate.current_chain_hash == rbB.id()
+                    if moved and as_answer:
+                        c["head_is_an_unvalidated_download_answer"] = c.get("head_is_an_unvalidated_download_answer", 0) + 1
                 except Exception:
                     moved = False
                 if moved:
